@@ -475,7 +475,7 @@ func main() {
 		noErr := rr.Chance(3, 4)
 		s := scen.GenerateC02(rr, scen.DefaultOpts(), noErr)
 		if only == "5" {
-			if noErr {
+			if noErr && !s.DupThis() {
 				runLO(ctx, w, rr, g, s, nil)
 			}
 			continue
